@@ -25,7 +25,7 @@ S = Suite(
     bound="grids 5..16 x 5..12 cells (odd/even, dx != dy), halo in {0, commensurate, "
           "incommensurate, None}, modes full / truncated / clamped, MOST / MOSTM / CONSTANT "
           "closures and a formula profile, scalar and list levels, numerical and analytic mode, "
-          "random / sparse / smooth / sign-changing / zero / exactly-zero-mean (dipole, "
+          "random / sparse / single-cell / smooth / sign-changing / zero / exactly-zero-mean (dipole, "
           "balanced integers) sources, seeded random coefficients "
           "in [-3, 3] incl. negative and zero, backgrounds in [-2, 5] and integer-TYPED backgrounds 400 / -3 / 1, "
           "integer-typed count fields as source, meas_pt on/off grid",
@@ -101,6 +101,10 @@ def make_source(kind, ny, nx, rng):
         return 0.1 + np.exp(-((x - cx) ** 2 / (0.1 * nx ** 2 + 1) + (y - cy) ** 2 / (0.1 * ny ** 2 + 1)))
     if kind == "zero":
         return np.zeros((ny, nx))
+    if kind == "single":           # one emitting cell (a point source), anywhere on the grid
+        q = np.zeros((ny, nx))
+        q[int(rng.integers(ny)), int(rng.integers(nx))] = rng.uniform(0.5, 2.0)
+        return q
     # sign-changing sources WITHOUT net emission: the horizontal mean (the (0,0) Fourier
     # coefficient) is exactly 0.0 - small integers, so every partial sum is exact
     if kind == "dipole":
@@ -284,7 +288,7 @@ GRIDS = [(16, 12, 160.0, 90.0, 20.0),      # dx=10, dy=7.5: incommensurate in y
          (8, 6, 80.0, 45.0, None),         # default halo
          (7, 9, 28.0, 36.0, 8.0),          # odd, commensurate
          (10, 6, 200.0, 90.0, 45.0)]       # dx=20, dy=15: 2 and 3 cells
-SRC = ["random", "signed", "sparse", "smooth", "negative", "huge"]
+SRC = ["random", "signed", "sparse", "smooth", "negative", "huge", "single"]
 ZERO_MEAN = ["dipole", "zero", "balanced"]
 
 
@@ -350,14 +354,14 @@ def generate(tier, rng):
                                 modes=_modes(nx + 2 * px, ny + 2 * py, c + rep), meas_pt=mp,
                                 analytic=an)
                     yield "superposition", dict(
-                        base, footprint=False, src1=SRC[c % 6], src2=SRC[(c + 2) % 6],
+                        base, footprint=False, src1=SRC[(c) % len(SRC)], src2=SRC[(c + 2) % len(SRC)],
                         a=_coef(rng), b=_coef(rng), c1=round(rng.uniform(-2, 5), 3),
                         c2=round(rng.uniform(-2, 5), 3), seed=rng.randrange(10 ** 6))
                     yield "background", dict(
-                        base, footprint=bool(c % 2), src=SRC[(c + 1) % 6],
+                        base, footprint=bool(c % 2), src=SRC[(c + 1) % len(SRC)],
                         bg=round(rng.uniform(-2, 5), 3), seed=rng.randrange(10 ** 6))
                     yield "footprint_values", dict(
-                        base, src1=SRC[c % 6], src2=("zero", "negative", "huge")[c % 3],
+                        base, src1=SRC[(c) % len(SRC)], src2=("zero", "negative", "huge")[c % 3],
                         bg=(0.0, 1.25)[c % 2], seed=rng.randrange(10 ** 6))
                     # no net emission (mean mode exactly zero) with a background, all levels
                     zs = ZERO_MEAN[c % 3]
@@ -365,20 +369,20 @@ def generate(tier, rng):
                         base, footprint=False, src=zs, bg=(2.5, -1.25)[c % 2],
                         seed=rng.randrange(10 ** 6))
                     yield "superposition", dict(
-                        base, footprint=False, src1=SRC[(c + 1) % 6], src2=ZERO_MEAN[(c + 1) % 3],
+                        base, footprint=False, src1=SRC[(c + 1) % len(SRC)], src2=ZERO_MEAN[(c + 1) % 3],
                         a=(1.0, _coef(rng))[c % 2], b=(1.0, _coef(rng))[c % 2], c1=0.0,
                         c2=round(rng.uniform(0.5, 5), 3), seed=rng.randrange(10 ** 6))
                     # integer-typed background value and source field (YAML `srf_bg_conc: 400`, a count map)
                     yield "background", dict(
-                        base, footprint=bool(c % 2), src=("counts", SRC[c % 6])[c % 2], bg=(400, -3, 1)[c % 3],
+                        base, footprint=bool(c % 2), src=("counts", SRC[(c) % len(SRC)])[c % 2], bg=(400, -3, 1)[c % 3],
                         seed=rng.randrange(10 ** 6))
                     if thorough or c % 3 == 0:
                         yield "superposition", dict(
-                            base, footprint=True, src1=SRC[(c + 3) % 6], src2=SRC[(c + 4) % 6],
+                            base, footprint=True, src1=SRC[(c + 3) % len(SRC)], src2=SRC[(c + 4) % len(SRC)],
                             a=_coef(rng), b=_coef(rng), c1=round(rng.uniform(-2, 5), 3),
                             c2=round(rng.uniform(-2, 5), 3), seed=rng.randrange(10 ** 6))
                         yield "background", dict(
-                            base, footprint=not bool(c % 2), src=SRC[(c + 5) % 6],
+                            base, footprint=not bool(c % 2), src=SRC[(c + 5) % len(SRC)],
                             bg=-1.5, seed=rng.randrange(10 ** 6))
     # ---- seeded random members (thorough only)
     if thorough:
